@@ -333,6 +333,13 @@ class Waiting(State):
             self.done_callback = None
         self._waiting_future = futures.Future()
 
+    def exit(self) -> None:
+        super().exit()
+        # The state can be left while a step is still blocked on the waiting future (the process was failed from
+        # outside the step, e.g. by a scheduled callback that raised): release that step, the process has moved on
+        if not self._waiting_future.done():
+            self._waiting_future.set_result(NULL)
+
     def interrupt(self, reason: Any) -> None:
         # This will cause the future in execute() to raise the exception
         self._waiting_future.set_exception(reason)
